@@ -660,6 +660,8 @@ class Explorer:
         self.stack = []
         self.violations = []        # Violation
         self.inconclusive = []      # dicts
+        self.unsupported = []
+        self.unsupported_unwitnessed = 0
         self.samples = []           # a few discharged obligations / inputs
         self.assumptions_used = set()
         self.max_violations_per_key = max_violations_per_key
@@ -1305,6 +1307,31 @@ class Explorer:
         except PathAbort:
             self._armed = False
             self.stats.aborted += 1
+        except Unsupported as e:
+            # the code under test used a proxy in a way the engine cannot model.  Nothing is claimed for this path; its
+            # inputs are handed to the concrete replay (if the real code fails on them, that is reported; otherwise the
+            # obligation stays undecided)
+            self._armed = False
+            signal.setitimer(signal.ITIMER_REAL, 0)
+            self.stats.paths += 1
+            import traceback as _tb
+            where = ""
+            try:
+                fr = [f for f in _tb.extract_tb(e.__traceback__) if "/vf/symx/" not in f.filename][-1]
+                where = " at %s:%d" % (fr.filename.split("/")[-1], fr.lineno)
+            except BaseException:
+                pass
+            msg = "symbolic execution reached an operation the engine cannot model%s: %s" % (where, e)
+            if len(self.unsupported) < 5:
+                self.unsupported.append(msg)
+            try:
+                inputs = self._generic_inputs() or self._current_inputs()
+            except BaseException:
+                inputs = None
+            if inputs is not None:
+                self._violate(msg, "unsupported: " + str(e)[:60] + where, inputs, None, kind="unsupported")
+            else:
+                self.unsupported_unwitnessed += 1
         except Frontier:
             self._armed = False
             self.stats.frontier += 1
